@@ -345,6 +345,21 @@ class SymCtx:
                 out[name] = ''.join(s)
         return out
 
+    def _same_inputs(self, model):
+        """z3 constraint: every input has the value it has in *model*."""
+        conds = []
+        for name, spec in self.inputs.items():
+            kind = spec[0]
+            if kind in ('bool', 'int'):
+                conds.append(spec[1] == model.eval(spec[1],
+                                                   model_completion=True))
+            elif kind == 'str':
+                for c in spec[1]:
+                    if not isinstance(c, int):
+                        conds.append(c.e == model.eval(
+                            c.e, model_completion=True))
+        return z3.And(*conds) if conds else z3.BoolVal(True)
+
     def _eval_obs(self, model):
         def ev(v):
             if isinstance(v, SymBool):
@@ -394,12 +409,32 @@ class SymCtx:
                 return
         self.viol_count += 1
         k = key or label
+        detail_fn = detail if callable(detail) else None
         if callable(detail):
             detail = detail(model)
         if k not in self.violations:
             self.violations[k] = {
                 'label': label, 'key': k, 'detail': jsonable(detail),
-                'inputs': self.decode(model), 'count': 0}
+                'inputs': self.decode(model), 'count': 0, 'more': []}
+            if not isinstance(cond, bool):
+                # a few more, different counterexamples on this path: code
+                # that keeps state across calls (class-level caches) can
+                # make an individual one unrepeatable in a fresh process
+                block = [z3.Not(self._same_inputs(model))]
+                for _ in range(5):
+                    m2 = self.eng.find_model(z3.And(z3.Not(cond), *block))
+                    if m2 is None:
+                        break
+                    d2 = detail_fn(m2) if detail_fn else detail
+                    self.violations[k]['more'].append(
+                        {'inputs': self.decode(m2), 'detail': jsonable(d2)})
+                    block.append(z3.Not(self._same_inputs(m2)))
+        elif len(self.violations[k]['more']) < 6 and \
+                self.violations[k]['count'] in (1, 2, 5, 17, 60, 200):
+            # further witnesses: state kept by the code under test across
+            # paths (class-level caches) can make the first one unrepeatable
+            self.violations[k]['more'].append(
+                {'inputs': self.decode(model), 'detail': jsonable(detail)})
         self.violations[k]['count'] += 1
         if len(self.violations) >= self.max_viol:
             raise Violation()
